@@ -750,9 +750,17 @@ def rule_definitions_are_expressions(run):
             return False
         return any(is_expr((dotted(b) or "").split(".")[-1], depth + 1) for b in c.bases)
 
-    # reviewed exception: InlineCode.result is the Python-level value the inline expression evaluates to (an object
-    # that is declared elsewhere), not a temporary computed by a statement
-    EXEMPT = {"InlineCode": "the value of an inline fragment is a declared object, nothing is computed into it"}
+    # a value-producing statement outside the hierarchy (ir.InlineCode: its value is the result of an inline expression)
+    # needs its own arm in the definite-assignment pass
+    gen = run.idx.mod(GEN)
+    det = [f_ for q_, f_ in gen.functions.items() if q_.endswith("search_invalid_temporaries")]
+    if len(det) != 1:
+        raise AnalysisError("anchor vanished: search_invalid_temporaries")
+    handled = set()
+    for c in ast.walk(det[0].node):
+        if isinstance(c, ast.Call) and dotted(c.func) == "isinstance" and len(c.args) == 2 and (dotted(c.args[1]) or "").startswith("ir."):
+            handled.add(dotted(c.args[1]).split(".")[1])
+    EXEMPT = {}
     n = 0
     for cname, c in irr.classes.items():
         if "." in cname or cname == "Expression":
@@ -767,7 +775,9 @@ def rule_definitions_are_expressions(run):
             run.note(f"ir.{cname}: exempt - {EXEMPT[cname]}")
             continue
         n += 1
-        run.ob(is_expr(cname), f"ir.{cname}", file=irr.rel, line=c.lineno, detail="is-expression", expected="subclass of ir.Expression", found="ok" if is_expr(cname) else f"bases {[src(b) for b in c.bases]}", sample=cname == "SelectWith")
+        ok = is_expr(cname) or cname in handled
+        run.ob(ok, f"ir.{cname}", file=irr.rel, line=c.lineno, detail="is-expression", expected="subclass of ir.Expression (or an arm of its own in search_invalid_temporaries)",
+               found="ok" if ok else f"bases {[src(b) for b in c.bases]}, not handled by the definite-assignment pass: its result is never counted as a definition", sample=cname == "SelectWith")
     run.end()
 
 
